@@ -69,6 +69,10 @@ def main():
         pids = [p for p in pids if p in claimed]
         ap = sh(["git", "-C", REPO, "apply", patch])
         if ap.returncode != 0:
+            # the patch was made against an earlier HEAD: try a three-way merge before giving up
+            sh(["git", "-C", REPO, "checkout", "--", "."])
+            ap = sh(["git", "-C", REPO, "apply", "--3way", patch])
+        if ap.returncode != 0:
             print(f"{bid}: patch does not apply: {ap.stderr[:300]}")
             results[bid] = {"applied": False, "error": ap.stderr[:500]}
             sh(["git", "-C", REPO, "checkout", "--", "."])
